@@ -28,9 +28,9 @@ def prop(pid, **kw):
 prop("C14",
      family="schema",
      mc=lambda tier: [("MC_Schema", _t(tier, "MC_Schema_quick.cfg", "MC_Schema_thorough.cfg")),
-                      ("MC_Schema", "MC_Schema_three.cfg")],
+                      ("MC_Schema", "MC_Schema_three.cfg"), ("MC_Schema", "MC_Schema_self.cfg")],
      gen=lambda tier: [("MC_Schema", _t(tier, "Gen_Schema_quick.cfg", "Gen_Schema_thorough.cfg")),
-                       ("MC_Schema", "Gen_Schema_three.cfg")],
+                       ("MC_Schema", "Gen_Schema_three.cfg"), ("MC_Schema", "Gen_Schema_self.cfg")],
      driver=lambda tier, seed, gen, out: ["schema", "-gen", gen, "-out", out, "-seed", str(seed)] +
      _t(tier, ["-sample", "400", "-walks", "100", "-depth", "40"],
         ["-sample", "6000", "-walks", "2000", "-depth", "60", "-lit"]),
